@@ -139,24 +139,14 @@ Proof.
   rewrite (arr_loop_same Z.eqb s d d' Hp Hl Hl' (Z.to_nat (prod s)) 0 true) by lia. reflexivity.
 Qed.
 
-Lemma isclose_arr_same nd eps s d d' : pos s -> zlen d = prod s -> zlen d' = prod s ->
-  isclose_arr nd eps s d s d' = Ret (all2 (close eps) d d').
+Lemma isclose_arr_spec nd eps s d s' d' : pos s \/ pos s' -> zlen d = prod s -> zlen d' = prod s' ->
+  isclose_arr nd eps s d s' d' = Ret (all2 Z.eqb s s' && all2 (close eps) d d').
 Proof.
-  intros Hp Hl Hl'. unfold isclose_arr. rewrite isequal_idx_spec, (all2_refl _ _ Z.eqb_refl).
-  rewrite product_eq_prod. pose proof (prod_pos _ Hp).
-  rewrite (arr_loop_same (close eps) s d d' Hp Hl Hl' (Z.to_nat (prod s)) 0 true) by lia.
-  now destruct nd.
+  intros Hp Hl Hl'. unfold isclose_arr. rewrite isequal_idx_spec. destruct (all2 Z.eqb s s') eqn:Es; [|reflexivity].
+  apply all2_eqb_eq in Es. subst s'. assert (Hs : pos s) by tauto.
+  rewrite product_eq_prod. pose proof (prod_pos _ Hs).
+  rewrite (arr_loop_same (close eps) s d d' Hs Hl Hl' (Z.to_nat (prod s)) 0 true) by lia. reflexivity.
 Qed.
-Lemma isclose_arr_debug eps s d s' d' : pos s -> zlen d = prod s -> pos s' -> zlen d' = prod s' ->
-  isclose_arr false eps s d s' d' = Ret (all2 Z.eqb s s' && all2 (close eps) d d') \/ isclose_arr false eps s d s' d' = Abort.
-Proof.
-  intros Hp Hl Hp' Hl'. destruct (all2 Z.eqb s s') eqn:Es.
-  - apply all2_eqb_eq in Es. subst s'. left. now apply isclose_arr_same.
-  - right. unfold isclose_arr. now rewrite isequal_idx_spec, Es.
-Qed.
-Lemma isclose_arr_ndebug_safe eps s d s' d' : pos s -> zlen d = prod s -> pos s' -> zlen d' = prod s' ->
-  exists b, isclose_arr true eps s d s' d' = Ret b.
-Proof. intros. unfold isclose_arr. apply arr_loop_safe; auto; lia. Qed.
 
 (* ---------- relations between an outcome and the reference answer ---------- *)
 Record okrel (R : out -> bool -> Prop) : Prop := {
@@ -423,22 +413,14 @@ Proof.
   all: right; left; cbn [as_arr]; do 4 eexists; repeat split; reflexivity.
 Qed.
 
-Lemma leaf_cl_debug_ok e x y : leafy x = true -> leafy y = true -> wfb x = true -> wfb y = true ->
-  Rabort (leaf_cl false e x y) (lspec (close e) x y).
+Lemma leaf_cl_ok nd e x y : leafy x = true -> leafy y = true -> wfb x = true -> wfb y = true ->
+  Rexact (leaf_cl nd e x y) (lspec (close e) x y).
 Proof.
-  intros Lx Ly Wx Wy. unfold Rabort.
-  destruct (leaf_cl_arr_cases false e x y Lx Ly) as [(a & b & -> & ->)|[(s & d & s' & d' & E & E' & ->) | ->]]; auto.
+  intros Lx Ly Wx Wy. unfold Rexact.
+  destruct (leaf_cl_arr_cases nd e x y Lx Ly) as [(a & b & -> & ->)|[(s & d & s' & d' & E & E' & ->) | ->]]; auto.
   destruct (as_arr_wf _ _ _ Wx E), (as_arr_wf _ _ _ Wy E').
   rewrite (lspec_arr _ _ _ _ _ _ _ (as_arr_arr_of _ _ _ E) (as_arr_arr_of _ _ _ E')).
-  destruct (isclose_arr_debug e s d s' d') as [-> | ->]; auto.
-Qed.
-Lemma leaf_cl_ndebug_safe e x y : leafy x = true -> leafy y = true -> wfb x = true -> wfb y = true ->
-  Rsafe (leaf_cl true e x y) (lspec (close e) x y).
-Proof.
-  intros Lx Ly Wx Wy. unfold Rsafe.
-  destruct (leaf_cl_arr_cases true e x y Lx Ly) as [(a & b & -> & ->)|[(s & d & s' & d' & E & E' & ->) | ->]]; auto.
-  - left. cbn. eauto.
-  - destruct (as_arr_wf _ _ _ Wx E), (as_arr_wf _ _ _ Wy E'). left. now apply isclose_arr_ndebug_safe.
+  left. apply isclose_arr_spec; auto.
 Qed.
 
 Lemma close_sym e a b : close e a b = close e b a.
@@ -476,24 +458,19 @@ Proof.
            (leaf_eq_ok nd) (leaf_eq_tl nd) x Wx y 0 Wy (pair_dom_okE _ 0 x y D eq_refl)).
 Qed.
 
-Definition close_dom (eps : Z) (x y : val) : Prop :=
-  (noeither x = true /\ noeither y = true) \/ (eps = default_eps /\ notup x = true /\ notup y = true).
-Lemma close_dom_okE eps x y : close_dom eps x y -> okE (fun _ => default_eps) eps x y.
-Proof. unfold close_dom, okE. intros [D|[-> D]]; auto. Qed.
-
-Lemma isclose_debug_total eps x y : wfb x = true -> wfb y = true -> close_dom eps x y ->
-  isclose false eps x y = Ret (spec_close eps x y) \/ isclose false eps x y = Reject \/ isclose false eps x y = Abort.
+Lemma isclose_total nd eps x y : wfb x = true -> wfb y = true -> pair_dom x y = true ->
+  isclose nd eps x y = Ret (spec_close eps x y) \/ isclose nd eps x y = Reject.
 Proof.
   intros Wx Wy D.
-  exact (cmp_t_R (leaf_cl false) (fun _ => default_eps) close Rabort okrel_abort close_sym
-           (leaf_cl_debug_ok) (leaf_cl_tl false) false x Wx y eps Wy (close_dom_okE _ _ _ D)).
+  exact (cmp_t_R (leaf_cl nd) (fun e => e) close Rexact okrel_exact close_sym
+           (leaf_cl_ok nd) (leaf_cl_tl nd) false x Wx y eps Wy (pair_dom_okE _ eps x y D eq_refl)).
 Qed.
-Lemma isclose_ndebug_safe eps x y : wfb x = true -> wfb y = true -> close_dom eps x y ->
-  (exists b, isclose true eps x y = Ret b) \/ isclose true eps x y = Reject.
+Lemma isclose_d_total nd eps x y : wfb x = true -> wfb y = true -> pair_dom x y = true ->
+  isclose_d nd eps x y = Ret (spec_close eps x y) \/ isclose_d nd eps x y = Reject.
 Proof.
   intros Wx Wy D.
-  exact (cmp_t_R (leaf_cl true) (fun _ => default_eps) close Rsafe okrel_safe close_sym
-           (leaf_cl_ndebug_safe) (leaf_cl_tl true) false x Wx y eps Wy (close_dom_okE _ _ _ D)).
+  exact (cmp_d_R (leaf_cl nd) (fun e => e) close Rexact okrel_exact close_sym
+           (leaf_cl_ok nd) (leaf_cl_tl nd) x Wx y eps Wy (pair_dom_okE _ eps x y D eq_refl)).
 Qed.
 
 (* ---------- derived statements ---------- *)
@@ -550,9 +527,39 @@ Proof.
   destruct (fixedk k && fixedk k'); auto. apply Nat.eqb_neq in N. rewrite N. auto.
 Qed.
 
+Lemma isclose_safe nd eps x y : wfb x = true -> wfb y = true -> pair_dom x y = true ->
+  isclose nd eps x y <> UB /\ isclose nd eps x y <> Abort /\ isclose_d nd eps x y <> UB /\ isclose_d nd eps x y <> Abort.
+Proof.
+  intros Wx Wy D.
+  destruct (isclose_total nd eps x y Wx Wy D) as [-> | ->], (isclose_d_total nd eps x y Wx Wy D) as [-> | ->];
+    repeat split; discriminate.
+Qed.
+Lemma isclose_refl nd eps x : 0 < eps -> wfb x = true -> pair_dom x x = true ->
+  isclose nd eps x x = Ret true \/ isclose nd eps x x = Reject.
+Proof.
+  intros He Wx D. destruct (isclose_total nd eps x x Wx Wx D) as [H|H]; auto.
+  left. rewrite H. f_equal. apply gspec_refl; auto. intros a. now apply close_refl.
+Qed.
+Lemma isclose_sym nd eps x y b : wfb x = true -> wfb y = true -> pair_dom x y = true ->
+  isclose nd eps x y = Ret b -> isclose nd eps y x = Ret b \/ isclose nd eps y x = Reject.
+Proof.
+  intros Wx Wy D H. destruct (isclose_total nd eps x y Wx Wy D) as [H1|H1]; [|congruence].
+  rewrite pair_dom_sym in D. destruct (isclose_total nd eps y x Wy Wx D) as [H2|H2]; auto.
+  left. rewrite H2. rewrite H in H1. injection H1 as ->. f_equal. apply spec_close_sym.
+Qed.
+Lemma isclose_shape_mismatch nd eps s d s' d' : wfb (Arr s d) = true -> wfb (Arr s' d') = true -> s <> s' ->
+  isclose nd eps (Arr s d) (Arr s' d') = Ret false /\ isclose_d nd eps (Arr s d) (Arr s' d') = Ret false.
+Proof.
+  intros W W' N. destruct (wf_arr _ _ W), (wf_arr _ _ W').
+  assert (E : all2 Z.eqb s s' = false).
+  { destruct (all2 Z.eqb s s') eqn:E; [|reflexivity]. apply all2_eqb_eq in E. contradiction. }
+  assert (isclose_arr nd eps s d s' d' = Ret false) by (rewrite isclose_arr_spec by tauto; now rewrite E).
+  split; assumption.
+Qed.
 Lemma isclose_same_shape nd eps s d d' : wfb (Arr s d) = true -> wfb (Arr s d') = true ->
   isclose nd eps (Arr s d) (Arr s d') = Ret (all2 (close eps) d d').
 Proof.
   intros W W'. destruct (wf_arr _ _ W), (wf_arr _ _ W').
-  change (isclose_arr nd eps s d s d' = Ret (all2 (close eps) d d')). now apply isclose_arr_same.
+  change (isclose_arr nd eps s d s d' = Ret (all2 (close eps) d d')).
+  rewrite isclose_arr_spec by tauto. now rewrite (all2_refl _ _ Z.eqb_refl).
 Qed.
